@@ -412,7 +412,7 @@ def apply_ref_patterns(body, counts):
 
 def line_anchor(body, anchor, occurrence):
     lines = body.split('\n')
-    hits = [i for i, l in enumerate(lines) if l.strip().startswith(anchor)]
+    hits = [i for i, l in enumerate(lines) if re.sub(r'/\*@[LI]\d+@\*/', '', l).strip().startswith(anchor)]
     if len(hits) < occurrence:
         raise Drift('anchor %r (#%d) not found' % (anchor, occurrence))
     return lines, hits[occurrence - 1]
@@ -546,15 +546,18 @@ def annotate_fn(sf, item, blk, counts, meta, mode, qual_name, extra_ensures=None
     if blk.loops and max(blk.loops) > len(loops):
         raise Drift('%s: contract names loop %d but the body has %d loops' % (qual_name, max(blk.loops), len(loops)))
     inserts = []
+    marker_text = {}
     for n, (iter_name, lines) in blk.loops.items():
         lp = loops[n - 1]
         inv_text = '\n'.join(lines)
         fmeta['n_invariants'] += len([c for c in split_clauses(lines) if c[0] in ('invariant', 'invariant_except_break', 'ensures')])
-        inserts.append((lp['brace'], '\n' + inv_text + '\n'))
+        inserts.append((lp['brace'], '/*@L%d@*/' % n))
+        marker_text['/*@L%d@*/' % n] = '\n' + inv_text + '\n'
         if iter_name:
             if lp['kind'] != 'for' or lp['in_end'] is None:
                 raise Drift('%s: loop %d is not a for loop' % (qual_name, n))
-            inserts.append((lp['in_end'], ' %s:' % iter_name))
+            inserts.append((lp['in_end'], '/*@I%d@*/' % n))
+            marker_text['/*@I%d@*/' % n] = ' %s:' % iter_name
     for off, ins in sorted(inserts, key=lambda x: -x[0]):
         body = body[:off] + ins + body[off:]
     if blk.loops:
@@ -587,6 +590,8 @@ def annotate_fn(sf, item, blk, counts, meta, mode, qual_name, extra_ensures=None
         body = '\n'.join(blines)
         counts.bump('R3')
 
+    for mk, mt in marker_text.items():
+        body = body.replace(mk, mt)
     for key, ntext in placeholders.items():
         body = body.replace('fn %s() {}' % key, ntext)
 
